@@ -1,4 +1,4 @@
-/* VH_LINK: kv
+/* VH_LINK: kv layout ref_codecs rm_manifest
  * crash.c - E3: crash-point x crash-image enumeration.
  *
  * One history is recorded on the real write path over the journalling in-memory
@@ -24,6 +24,7 @@
 #include <stdlib.h>
 #include <string.h>
 #include "kv.h"
+#include "layout.h"
 
 #define MAXOPS 24
 static const char *DB = "/vfs/db";
@@ -194,7 +195,7 @@ recover_body(void *arg) {
   kv_observe(h.db, j->r->acks, j->r->nacks, o);
   if (j->followup == 0) {
     char e[300];
-    if (!kv_files_exact_check(h.db, DB, e, sizeof(e))) {
+    if (!lay_files_exact_check(h.db, DB, e, sizeof(e))) {
       o->garbage = 1;
       if (!o->err[0])
         snprintf(o->err, sizeof(o->err), "%s", e);
